@@ -248,13 +248,13 @@ _NUM_REF = 'ref_numeric_parse(self, packet, old(packet.raw_data.pos))'
 
 # packets whose length-reference parameters are integers (int-valued floats and calibrated float references are
 # covered by the bounded stand-in: the float detour of the adjuster is not integer arithmetic)
-PKT_INTS = ('mobj', 'CCSDSPacket', {'__items__': ('odict', {'kinds': ['IntParameter'], 'rawkinds': ['int']})})
+PKT_INTS = ('mobj', 'CCSDSPacket', {'__items__': ('odict', {'kinds': ['IntParameter', 'FloatParameter', 'StrParameter'], 'rawkinds': ['int', 'real', 'str']})})
 
 
 def _gen_adjuster(rng, tier, variant):
     """slopes and intercepts in -8..16, arguments -4..300 (ints) and integer-valued / non-integer floats"""
     for _ in range(600):
-        x = rng.randint(-4, 300) if variant == 'int' else rng.choice([float(rng.randint(0, 40)), rng.randint(0, 40) + 0.5])
+        x = rng.randint(-4, 300) if variant == 'int' else (rng.choice(['12', 'abc', '3.5', '']) if variant == 'text' else rng.choice([float(rng.randint(0, 40)), rng.randint(0, 40) + 0.5]))
         yield {'slope': rng.randint(-8, 16), 'intercept': rng.randint(-8, 16), 'x': _enc(x)}
 
 
@@ -551,7 +551,14 @@ def _size_contract(target, fixed, lookups, ref, adj, refval, fixed_truthy, consu
         'first_lookup': (f'implies({look_sel}, exists(lambda i: first_lookup_value(self.{lookups}, packet, i) and '
                          f'RESULT == trunc(at(self.{lookups}, i).lookup_value), 0, len(self.{lookups})))', ['__proof__']),
         # ... or the referenced parameter (raw or calibrated as declared) through slope * x + intercept
-        'reference': (f'implies({ref_sel}, RESULT == {adjusted})', ['__proof__']),
+        'reference': (f'implies({ref_sel} and kind_is({refval}, "int"), RESULT == {adjusted})', ['__proof__']),
+        # ... a float-valued reference (a calibrated value): through the adjustment when there is one (which must give a
+        # whole number), else truncated
+        'reference_float_adjusted': (f'implies({ref_sel} and kind_is({refval}, "real") and not is_none(self.{adj}), '
+                                     f'toreal(RESULT) == cap(self.{adj}, "slope") * {refval} + cap(self.{adj}, "intercept"))',
+                                     ['__proof__']),
+        'reference_float_plain': (f'implies({ref_sel} and kind_is({refval}, "real") and is_none(self.{adj}), '
+                                  f'RESULT == trunc({refval}))', ['__proof__']),
     }
     if consumer is not None:
         return {k: (v[0].replace('RESULT', consumer), v[1]) for k, v in clauses.items()}
@@ -563,7 +570,8 @@ def _size_contract(target, fixed, lookups, ref, adj, refval, fixed_truthy, consu
         returns='int',
         # a linear adjustment only accompanies a parameter reference (that is how the XTCE reader builds encodings, and
         # what StringDataEncoding's constructor enforces)
-        requires=[f'is_none(self.{adj}) or (is_none(self.{fixed}) and not is_none(self.{ref}))'] if not fixed_truthy else [],
+        requires=([f'is_none(self.{adj}) or (is_none(self.{fixed}) and not is_none(self.{ref}))'] if not fixed_truthy else []) +
+        [],
         loops={('', 0): LoopSpec(invariants={
             'no_earlier_match': f'forall(lambda k: not dl_match(at(self.{lookups}, k), packet, None), 0, _i)'})},
         ensures=clauses,
@@ -587,11 +595,14 @@ CONTRACTS += [
         variants={'int': {'params': {'x': 'int'}, 'ensures': {'value': 'result == slope * x + intercept'}},
                   # a float argument (a calibrated reference): slope * x + intercept over the reals, which must be a whole
                   # number (ValueError otherwise) - the argument itself need not be one
+                  # a text-valued reference is outside the statement: whatever float(x) makes of it, or ValueError
+                  'text': {'params': {'x': 'str'}, 'may_raise': {'ValueError': 'True'}},
                   'float': {'params': {'x': 'real'},
-                            'ensures': {'value': ('toreal(result) == slope * x + intercept', ['__proof__'])},
+                            'ensures': {'value': ('toreal(result) == slope * x + intercept', ['__proof__']),
+                                        'value_exact': ('result == slope * x + intercept', ['__native__'])},
                             'raises': {'ValueError': 'not is_int_valued(slope * x + intercept)'}}},
         returns='int',
-        ensures={'value_exact': ('result == slope * x + intercept', ['__native__'])},
+        ensures={},
         modifies=[],
         native={'gen': _gen_adjuster, 'build': _build_adjuster, 'call': 'xtce.encodings.DataEncoding._get_linear_adjuster'},
     ),
